@@ -1032,3 +1032,101 @@ Example ex_select_where :
   = map (fun i => nth (Z.to_nat i) [10; 11; 12; 13] 0)
         (where_ [true; false; true; true]).
 Proof. reflexivity. Qed.
+
+(* ======================================================================== *)
+(* 6. mapper.py composed over the depth; the non-scalar features            *)
+(* ======================================================================== *)
+Lemma take_idx_select idx m is js :
+  take_idx idx is = Some js ->
+  take_idx idx (select m is) = Some (select m js).
+Proof.
+  revert m js; induction is as [|i is IH]; intros m js H.
+  - simpl in H. injection H as <-. now rewrite !select_nil_r.
+  - cbn [take_idx] in H.
+    destruct (nth_error idx (Z.to_nat i)) as [v|] eqn:Ev; [|discriminate].
+    destruct (take_idx idx is) as [r|] eqn:Er; [|discriminate].
+    destruct (0 <=? i) eqn:Ei; [|discriminate].
+    injection H as <-.
+    destruct m as [|b m]; [reflexivity|].
+    destruct b; cbn [select].
+    + cbn [take_idx]. rewrite Ev, (IH m r eq_refl), Ei. reflexivity.
+    + now apply IH.
+Qed.
+
+Lemma c2r_select anc : forall m is js,
+  c2r anc is = Some js -> c2r anc (select m is) = Some (select m js).
+Proof.
+  induction anc as [|p anc IH]; intros m is js H.
+  - simpl in *. now injection H as <-.
+  - cbn [c2r] in *. unfold c2p in *.
+    destruct (take_idx (where_ (f_all (l_filt p))) is) as [ks|] eqn:E;
+      [|discriminate].
+    rewrite (take_idx_select _ m _ _ E). now apply IH.
+Qed.
+
+(* map_indices_child2root of all events of a child: the parent's root
+   indices restricted to the parent's filter *)
+Theorem c2r_child :
+  forall (p : level) (anc : list level) (Rp : list Z),
+    c2r anc (iota 0 (length (f_all (l_filt p)))) = Some Rp ->
+    c2r (p :: anc) (iota 0 (count_true (f_all (l_filt p))))
+    = Some (select (f_all (l_filt p)) Rp).
+Proof.
+  intros p anc Rp H. cbn [c2r]. rewrite c2p_all.
+  unfold where_. now apply c2r_select.
+Qed.
+
+(* hence the image column of a child (ChildNDArray, read event by event
+   through the index maps up to the root) is the parent's image column
+   restricted to the parent's filter; mask, contour and trace are read by
+   the same code *)
+Theorem image_child_is_view :
+  forall (img : list Z) (c p : level) (anc : list level) (Rp : list Z),
+    view_of c p ->
+    l_len p = Z.of_nat (length (f_all (l_filt p))) ->
+    c2r anc (iota 0 (length (f_all (l_filt p)))) = Some Rp ->
+    image_ids img (p :: anc) (l_len c)
+    = select (f_all (l_filt p)) (image_ids img anc (l_len p)).
+Proof.
+  intros img c p anc Rp [Hlen _] Hp H. unfold image_ids.
+  rewrite Hlen, Hp, !Nat2Z.id, H, (c2r_child p anc Rp H).
+  now rewrite select_map.
+Qed.
+
+Example ex_image_view :
+  let st := fst (run (init 8 ex_cols) ex_ops2) in
+  match s_levels st with
+  | c :: p :: anc =>
+      l_len p = Z.of_nat (length (f_all (l_filt p)))
+      /\ c2r anc (iota 0 (length (f_all (l_filt p)))) = Some [3;4;5;6;7]
+      /\ image_ids (s_img st) (p :: anc) (l_len c) = [6;7;8;9;10]
+  | _ => False
+  end.
+Proof. vm_compute. repeat split; reflexivity. Qed.
+
+(* index maps down and up again: parent2child after child2parent is the
+   identity on increasing child indices (np.isin + np.where) *)
+Lemma select_mem_sub (w v : list Z) : forall s,
+  (forall x, In x v -> memz x w = true) ->
+  select (map (fun i => memz i w) v) (iota s (length v)) = iota s (length v).
+Proof.
+  induction v as [|x v IH]; intros s Hall; [reflexivity|].
+  cbn [map length iota select].
+  rewrite (Hall x (or_introl eq_refl)). f_equal.
+  apply IH. intros y Hy. apply Hall. now right.
+Qed.
+
+Lemma where_map_mem_self (w : list Z) :
+  where_ (map (fun i => memz i w) w) = iota 0 (length w).
+Proof.
+  unfold where_. rewrite map_length. apply select_mem_sub.
+  intros x Hx. now apply memz_In.
+Qed.
+
+Theorem p2c_c2p_all (p : level) :
+  option_map (p2c p) (c2p p (iota 0 (count_true (f_all (l_filt p)))))
+  = Some (iota 0 (count_true (f_all (l_filt p)))).
+Proof.
+  rewrite c2p_all. cbn [option_map]. unfold p2c.
+  rewrite where_map_mem_self. now rewrite where_length.
+Qed.
